@@ -343,24 +343,28 @@ next:
 				for n += nn; nn != 0 && clean && err == nil; n += nn {
 					nn, err, clean = streamTo(i, w)
 				}
+				if err != nil {
+					clean = false // the remaining chunks are still unread
+				}
 			}
 			return n, err, clean
 		}
 		if n == -1 {
 			return 0, Nil, true
 		}
-		full := n + 2
+		rest := int64(2)
 		if n != 0 {
 			lr := lrs.Get().(*io.LimitedReader)
 			lr.R = i
 			lr.N = n
 			n, err = io.Copy(w, lr)
+			rest += lr.N // what a failing writer left unread, not what it left unwritten
 			lr.R = nil
 			lrs.Put(lr)
 		} else if typ == typeChunk {
 			return n, err, true
 		}
-		if _, err2 := i.Discard(int(full - n)); err2 == nil {
+		if _, err2 := i.Discard(int(rest)); err2 == nil {
 			clean = true
 		} else if err == nil {
 			err = err2
